@@ -76,6 +76,15 @@ def class_source(cs):
         sets = "".join(f"        object.__setattr__(self, {f!r}, {f})\n" for f in fields)
         body += f"    def __init__(self, {args}):\n{sets}"
         return f"@expr_dataclass(init=False)\nclass {name}(Expression):\n{body}"
+    if kind == "legacy_transform":
+        # undecorated subclass whose constructor is not a plain store of its arguments
+        return (f"class {name}(Variable):\n"
+                f"    def __init__(self, name):\n"
+                f"        super().__init__('p_' + name)\n"
+                f"    mapper_method = 'map_{name.lower()}'\n")
+    if kind == "legacy_subsub":
+        # a plain subclass of a legacy subclass: it only inherits the init-args protocol
+        return f"class {name}({base}):\n    pass\n"
     if kind == "legacy_sub":
         # undecorated subclass of a decorated class
         allf = cs["all_fields"]
@@ -123,6 +132,10 @@ def make_user_classes(specs):
             # two unrelated classes that happen to share their __name__ (two packages each
             # defining `Tagged`); __qualname__ stays unique so pickle finds the right one
             cls.__name__ = cs["pyname"]
+        if cs.get("same_qualname_as"):
+            # the same class statement executed twice: module, qualified name and fields agree
+            cls.__name__ = cls.__qualname__ = cs["same_qualname_as"]
+            cls._sim_uid = cs["name"]
         cls.__module__ = "dst_dyn"
         out[cs["name"]] = cls
     return out
@@ -135,7 +148,11 @@ def gen_user_classes(r):
     for k in range(n):
         name = f"U{k}"
         kind = r.choice(["dc", "dc", "dc_nohash", "dc_noinit", "legacy_sub", "legacy_sub",
-                         "pure_legacy"])
+                         "pure_legacy", "legacy_transform"])
+        if kind == "legacy_transform":
+            specs.append({"name": name, "kind": kind, "base": "Variable", "fields": [],
+                          "all_fields": ["name"]})
+            continue
         if kind == "dc_noinit":
             fields = USER_FIELD_NAMES[:r.randint(1, 2)]
             specs.append({"name": name, "kind": kind, "base": None, "fields": fields,
@@ -156,6 +173,10 @@ def gen_user_classes(r):
                           "all_fields": allf})
             if kind == "dc":
                 decorated.append((name, allf))
+                if r.random() < 0.25:
+                    specs.append({"name": name + "c", "kind": "dc", "base": base,
+                                  "fields": fields, "all_fields": allf,
+                                  "same_qualname_as": name})
         elif kind == "legacy_sub":
             if decorated and r.random() < 0.6:
                 base, basef = r.choice(decorated)
@@ -166,6 +187,9 @@ def gen_user_classes(r):
             fields = [f for f in USER_FIELD_NAMES if f not in basef][:nf]
             specs.append({"name": name, "kind": kind, "base": base, "fields": fields,
                           "all_fields": basef + fields})
+            if fields and r.random() < 0.4:
+                specs.append({"name": name + "s", "kind": "legacy_subsub", "base": name,
+                              "fields": [], "all_fields": basef + fields})
         else:
             fields = USER_FIELD_NAMES[:r.randint(1, 3)]
             dup = r.random() < 0.35
@@ -370,6 +394,8 @@ def generate(seed, tier):
         classes += [cs["name"]] * 3
     dup_pairs = [(cs["name"][:-1], cs["name"]) for cs in ucs
                  if cs.get("pyname") and cs["name"].endswith("b")]
+    dup_pairs += [(cs["same_qualname_as"], cs["name"]) for cs in ucs
+                  if cs.get("same_qualname_as")]
     pool = []
     g = _Gen(r, classes=classes, max_depth=r.choice([1, 2, 2, 3, 4]), pool=pool,
              idents=["x", "y", "z"], p_ref=0.2, p_fresh=0.1, p_leaf=0.35,
@@ -813,7 +839,11 @@ def execute(scenario, open_sigs):
             elif k == "deepcopy":
                 n2 = copy.deepcopy(o)
             elif k == "pickle":
-                n2 = pickle.loads(pickle.dumps(o, protocol=op[2]))
+                try:
+                    n2 = pickle.loads(pickle.dumps(o, protocol=op[2]))
+                except pickle.PicklingError:
+                    # two classes under one qualified name: pickle itself refuses
+                    return ["pickle-refused"]
             else:
                 return run_map(op[1], src, o)
             probe("copies_after_hash" if hashed_before else "copies_before_hash")
